@@ -66,6 +66,9 @@ pub struct FontD {
     pub builtin: Option<usize>,
     #[serde(default)]
     pub data: Vec<u8>,
+    /// SAUCE font name (BitFont::from_sauce_name), overrides builtin / data
+    #[serde(default)]
+    pub sauce_name: Option<String>,
 }
 
 #[derive(Clone, Debug, Serialize, Deserialize, Default)]
@@ -122,6 +125,11 @@ pub fn make_attr(fg: u32, bg: u32, attr: u16, fp: u16) -> TextAttribute {
 }
 
 pub fn make_font(f: &FontD) -> BitFont {
+    if let Some(n) = &f.sauce_name {
+        if let Ok(font) = BitFont::from_sauce_name(n) {
+            return font;
+        }
+    }
     if let Some(page) = f.builtin {
         if let Ok(font) = BitFont::from_ansi_font_page(page) {
             return font;
